@@ -280,7 +280,7 @@ pub fn quiesce(w: &World) -> Result<(Tasks, World), String> {
             break;
         }
         if rounds > r + 3 {
-            return Err("no-quiescence: replicas keep pushing versions without new local changes".into());
+            return Err("no-quiescence: the replicas do not reach a state in which every one is at the latest version with nothing left to send".into());
         }
     }
     let obs = world_obs(&w);
